@@ -311,6 +311,8 @@ class UnaryUfunc(Ufunc, ABC):
         """
         self.variables: Tuple["Tensor"] = (x1,)
         if where is not True:
+            # a tensor-valued mask would make the numpy-ufunc dispatch back to mygrad
+            where = np.asarray(where)
             self.where = where
         return self.numpy_ufunc(x1.data, out=out, where=where, dtype=dtype)
 
@@ -379,6 +381,8 @@ class BinaryUfunc(Ufunc, ABC):
         """
         self.variables: Tuple["Tensor", "Tensor"] = (x1, x2)
         if where is not True and where is not _NoValue:
+            # a tensor-valued mask would make the numpy-ufunc dispatch back to mygrad
+            where = np.asarray(where)
             self.where = where
             return self.numpy_ufunc(x1.data, x2.data, out=out, where=where, dtype=dtype)
         else:
